@@ -519,6 +519,48 @@ def run_histories(ctx):
                   f"stat.transform.{tn}|reset-does-not-restore-defaults-after-a-parameter-was-set",
                   {"kind": "history-reset", "class": tn},
                   lambda: {"params_after_reset": gotp.tolist(), "defaults": wantp.tolist()})
+    # the same call before and after *other* calls of the function with other options and
+    # data (a tolerance, a tie rule, an order): options of one call do not outlive it
+    from hydrodiy.stat import metrics as _mt, armodels as _ar, sutils as _su
+    r_ = np.random.default_rng(ctx.seed + 29)
+    n_, m_ = 12, 7
+    # members of different forecasts 1e-9 .. 1e-11 apart: their order decides the score
+    base_e = np.round(r_.normal(size=(n_, m_)), 2)
+    ens_ = base_e + r_.choice([0.0, 1e-9, -1e-9, 3e-10, 1e-11], size=(n_, m_))
+    obs_ = np.round(r_.normal(size=n_), 2) + np.arange(n_) * 1e-3
+    probes = {
+        "stat.metrics.dscore": (lambda: _mt.dscore(obs_, ens_),
+                                [lambda: _mt.dscore(obs_, ens_, eps=1e-12),
+                                 lambda: _mt.dscore(obs_[::-1].copy(), ens_, eps=1e-15),
+                                 lambda: _mt.dscore(obs_, ens_ * 1e6, eps=0.5)]),
+        "stat.metrics.pit": (lambda: _mt.pit(obs_, ens_)[0],
+                             [lambda: _mt.pit(obs_, ens_, censor=0.5, kind="weak"),
+                              lambda: _mt.pit(obs_ * 0, ens_, random=True)]),
+        "stat.armodels.armodel_sim": (lambda: _ar.armodel_sim(np.array([0.5, 0.2]), obs_),
+                                      [lambda: _ar.armodel_sim(0.9, obs_[:5], sim_mean=3.0),
+                                       lambda: _ar.armodel_residual(np.array([0.1] * 10),
+                                                                    obs_, sim_ini=7.0)]),
+        "stat.sutils.ppos": (lambda: _su.ppos(9), [lambda: _su.ppos(9, 0.5),
+                                                   lambda: _su.ppos(3, 0.0)]),
+    }
+    for lab, (main, others) in probes.items():
+        with warnings.catch_warnings(), np.errstate(all="ignore"):
+            warnings.simplefilter("ignore")
+            first = main()
+            for o_ in others:
+                try:
+                    o_()
+                except Exception:
+                    pass
+            later = main()
+        ctx.api(lab.split(".")[-1], 2 + len(others))
+        ctx.tag("history:other-options-in-between")
+        ctx.evaluated()
+        ctx.check("history.same-call-same-result", same_result(later, first, 0),
+                  f"{lab}|result-depends-on-options-of-earlier-calls",
+                  {"kind": "history-options", "function": lab},
+                  lambda: {"first": np.asarray(first).ravel()[:4].tolist(),
+                           "later": np.asarray(later).ravel()[:4].tolist()})
     # a caller-supplied answer vector that has served another call before
     big = np.array([[-10., -10.], [10., -10.], [10., 10.], [-10., 10.]])
     small = np.array([[0., 0.], [1., 0.], [1., 1.], [0., 1.]])
@@ -652,6 +694,38 @@ def run_grid_ownership(ctx):
                                for k in mine})
         except Exception as e:
             ctx.extra["from_dict-arrays-refused"] += 1
+        # sums and differences of catchments answer for their own cells, whatever was
+        # asked of their operands before
+        try:
+            nr3, nc3 = max(nr, 3), nc
+            codes3 = np.full((nr3, nc3), 4, dtype=np.int64)
+            codes3[nr3 - 1, :] = 16
+            codes3[nr3 - 1, 0] = 0
+            fd3 = gg.Grid("fd", nc3, nr3, dtype=np.int64)
+            fd3.data = codes3
+            cg_ = gg.Grid("coarse", 3, 3, cellsize=max(nr3, nc3) / 3.0 + 0.5)
+            whole = gg.Catchment("w", fd3)
+            whole.delineate_area((nr3 - 1) * nc3)
+            part = gg.Catchment("p", fd3)
+            part.delineate_area((nr3 - 2) * nc3)      # the first column above the outlet
+            whole.intersect(cg_)                      # (asked first of the operand)
+            part.intersect(cg_)
+            for nm_, comb in (("difference", whole - part), ("sum", part + whole)):
+                _, ic_, w_ = comb.intersect(cg_)
+                fresh = gg.Catchment.from_dict(comb.to_dict())
+                _, icf, wf = fresh.intersect(cg_)
+                ctx.api("Catchment.intersect", 2)
+                ctx.tag("ownership:combined-catchments")
+                ctx.check("combined.intersect", sorted(zip(map(int, ic_), map(float, w_))) ==
+                          sorted(zip(map(int, icf), map(float, wf))),
+                          f"gis.grid.Catchment.intersect|{nm_}-answers-for-its-operand", 
+                          {"kind": "ownership", "how": nm_ + " of catchments"},
+                          lambda: {"got": sorted(zip(map(int, ic_), map(float, w_)))[:6],
+                                   "rebuilt_from_its_own_cells":
+                                   sorted(zip(map(int, icf), map(float, wf)))[:6]})
+        except Exception as e:
+            ctx.extra[f"combined-catchments-refused:{nr}x{nc}:" + type(e).__name__ + ":" +
+                      str(e)[:60]] += 1
         ctx.check("catchment.owns-its-flow-grid", a1 == a2 and len(a1) == nr,
                   "gis.grid.Catchment|result-changes-after-caller-edits-its-flow-grid",
                   {"kind": "ownership", "how": "Catchment(flowdir)"},
